@@ -397,6 +397,89 @@ example :
       ["x1".toList, "y+".toList, "z z".toList, "u".toList, "v@w".toList, "p/q-r/s".toList] := by
   simp [Shape, NoDelim, delims, followDelim]
 
+/-! ## Rebuilding BY NAME: `<r>_path(**parse_<r>_path(path))`
+
+Variable names are opaque strings in the model (`Seg.var name`): nothing above looks inside a name, so
+camelCase, Capitalised, digit- or underscore-holding names are covered as they are.  What a caller
+writes is `build(**parse(path))`: the builder's parameters are looked up by the NAMES the parser's
+groups carry.  `buildKw` (Model/PathHelpers.lean) is that call (a missing name is Python's TypeError / KeyError: `none`). -/
+
+theorem buildKw_of_lookup : ∀ (segs : List Seg) (vals : List (List Char)) (kv : List (String × List Char)),
+    Good segs vals → (∀ p ∈ expected segs vals, kv.lookup p.1 = some p.2) →
+    buildKw segs kv = some (build segs vals) := by
+  intro segs
+  induction segs with
+  | nil => intro vals kv _ _; simp [buildKw, build]
+  | cons sg r ih =>
+    intro vals kv hg hl
+    cases sg with
+    | lit cs =>
+      simp only [Good] at hg
+      simp only [expected] at hl
+      simp [buildKw, build, ih vals kv hg.2 hl]
+    | var n mu =>
+      cases vals with
+      | nil => simp [Good] at hg
+      | cons v vs =>
+        simp only [Good] at hg
+        simp only [expected] at hl
+        have h1 := hl (String.ofList n, v) (List.mem_cons_self)
+        have h2 := ih vs kv hg.2.2.2 (fun p hp => hl p (List.mem_cons_of_mem _ hp))
+        simp only at h1
+        simp [buildKw, build, h1, h2]
+
+theorem lookup_of_nodup_keys : ∀ (kv : List (String × List Char)), (kv.map (·.1)).Nodup →
+    ∀ p ∈ kv, kv.lookup p.1 = some p.2 := by
+  intro kv
+  induction kv with
+  | nil => intro _ p hp; cases hp
+  | cons a kv ih =>
+    intro hnd p hp
+    simp only [List.map_cons, List.nodup_cons] at hnd
+    cases hp with
+    | head => simp [List.lookup]
+    | tail _ hp =>
+      have hne : p.1 ≠ a.1 := by
+        intro h
+        apply hnd.1
+        rw [← h]
+        exact List.mem_map_of_mem hp
+      have : (p.1 == a.1) = false := by simpa using hne
+      simp only [List.lookup, this]
+      exact ih hnd.2 p hp
+
+theorem expected_keys (segs : List Seg) (vals : List (List Char)) (h : Good segs vals) :
+    (expected segs vals).map (·.1) = (pathArgs segs).map String.ofList := by
+  induction segs generalizing vals with
+  | nil => simp [expected, pathArgs]
+  | cons sg r ih =>
+    cases sg with
+    | lit cs => simp only [Good] at h; simpa [expected, pathArgs] using ih vals h.2
+    | var n mu =>
+      cases vals with
+      | nil => simp [Good] at h
+      | cons v vs => simp only [Good] at h; simp [expected, pathArgs, ih vs h.2.2.2]
+
+/-- **Round trip by name**: for every pattern with distinct variable names (whatever their
+spelling) and all `Good` values, `<r>_path(**parse_<r>_path(<r>_path(*vals)))` is the path: the
+parser's group names are exactly the builder's parameters. -/
+theorem rebuild_by_name (t : ClassTables) (segs : List Seg) (vals : List (List Char))
+    (h : Good segs vals) (hd : ((pathArgs segs).map String.ofList).Nodup) :
+    buildKw segs (parse t segs (build segs vals)) = some (build segs vals) := by
+  rw [parse_build_partial t segs vals h]
+  apply buildKw_of_lookup segs vals _ h
+  apply lookup_of_nodup_keys
+  rw [expected_keys segs vals h]
+  exact hd
+
+/-- `keyRings/{keyRing}/cryptoKeys/{CryptoKey}/versions/{version_2=**}`: camelCase, Capitalised and
+digit-holding names meet the hypotheses. -/
+example :
+    let segs := [.lit "keyRings/".toList, .var "keyRing".toList false, .lit "/cryptoKeys/".toList,
+      .var "CryptoKey".toList false, .lit "/versions/".toList, .var "version_2".toList true]
+    Good segs ["r-1".toList, "K".toList, "1/2".toList] ∧ ((pathArgs segs).map String.ofList).Nodup := by
+  refine ⟨by simp [Good], by decide⟩
+
 /-- the five common resources' patterns (`Service.common_resources`, bridged table
 `Pinned.commonResources`), tokenised. -/
 def commonSegs : List (List Seg) :=
@@ -614,6 +697,14 @@ theorem suffix_inside_last_value_roundtrip :
     parse tt [.lit "users/".toList, .var "user".toList false, .lit "/settings".toList]
       (build [.lit "users/".toList, .var "user".toList false, .lit "/settings".toList] ["al/settings/ice".toList])
     = [("user", "al/settings/ice".toList)] := by decide
+
+/-- names with upper-case letters are carried as written, by the parser's groups too:
+`rings/{keyRing}/vs/{cryptoKeyVersion=**}` (a builder that re-spells its parameters while the regex
+keeps the names breaks `rebuild_by_name` at exactly this input).  Evaluated on the model. -/
+theorem camel_case_variables_roundtrip :
+    let segs := [.lit "rings/".toList, .var "keyRing".toList false, .lit "/vs/".toList, .var "cryptoKeyVersion".toList true]
+    parse tt segs (build segs ["r".toList, "1/2".toList]) = [("keyRing", "r".toList), ("cryptoKeyVersion", "1/2".toList)] ∧
+    buildKw segs (parse tt segs (build segs ["r".toList, "1/2".toList])) = some "rings/r/vs/1/2".toList := by decide
 
 /-- a value containing a newline does not survive (`.` does not match `\n`). -/
 theorem newline_counterexample :
